@@ -745,6 +745,131 @@ def _site_runner(i):
 
 
 # =====================================================================================
+# relationship TYPE tests: which relationships of a source part are taken for pictures (round 6)
+# =====================================================================================
+# A relationship part lists relationships of every kind (a worksheet: drawing, vmlDrawing of the comment boxes, comments, hyperlinks,
+# printer settings ...).  The guard that picks the relationships of one kind is sliced out of the real function as a function of the
+# relationship type alone and executed by the engine on EVERY standard relationship type of that source part (c14_reltypes: ECMA-376
+# tables, Transitional + Strict namespace, Microsoft extension types): it must separate the wanted kind from all the others
+# (`exact`), or -- where a later lookup by relationship id does the final selection -- accept the wanted kind and tell it from others.
+TYPE_SITES = [
+    dict(rel=XLSX, fn="_extract_images_from_zip", tests=(("worksheet", "drawing", True, "sheet-drawing"), ("drawing", "image", True, "drawing-image"))),
+    dict(rel=DOCX, fn="_extract_images_from_context", tests=(("document", "image", True, "document-image"),)),
+    dict(rel=PPTX, fn="_PptxContext._compute_slide_order", tests=(("presentation", "slide", False, "presentation-slide"),)),
+]
+
+
+def _type_tests(fn):
+    """[(conjunct, if-node, slice function)]: conditions of the function that depend on a relationship type and on nothing else."""
+    from contracts import c14_flow as F
+    out = []
+    ifs = sorted([n for n in ast.walk(fn) if isinstance(n, ast.If)], key=lambda n: (n.lineno, n.col_offset))
+    for node in ifs:
+        conj = node.test.values if isinstance(node.test, ast.BoolOp) and isinstance(node.test.op, ast.And) else [node.test]
+        for e in conj:
+            try:
+                f, sl = F.build_slice_function(fn, e, node, lambda x: F.is_lookup_of(x, ("type",)), name="__type_test")
+            except Exception:  # noqa
+                continue
+            if f is not None and set(sl.sources) == {"__target"}:
+                out.append((e, node, f))
+    return out
+
+
+def _eval_type_test(mod, reg, uni, f, uri):
+    """The sliced guard on one concrete relationship type -> True / False / None (not decided)."""
+    from pyvc import verify
+    from pyvc.verify import p_const
+    seen = []
+
+    def cap(c):
+        seen.append(c.result)
+        return z3.BoolVal(True)
+    c = FnContract(target=f"{mod.rel}::__type_test", params=[("__target", p_const(uri))], ensures=[("value", cap)], raises=[Raises("Exception", sub=True)])
+    ex = C14Executor(mod, reg, uni)
+    ex.contract = c
+    ex.oid_prefix = "slice"
+    try:
+        verify.generate(ex, c, mod, f)
+    except Exception:  # noqa
+        return None
+    vals = set()
+    for r in seen:
+        if isinstance(r, (VBool, VInt)):
+            t = z3.simplify(ops.int_term(r) != 0) if not isinstance(r, VBool) else z3.simplify(r.t)
+            vals.add(True if z3.is_true(t) else False if z3.is_false(t) else None)
+        elif isinstance(r, VStr) and r.const() is not None:
+            vals.add(bool(r.const()))
+        else:
+            vals.add(None)
+    return vals.pop() if len(vals) == 1 else None
+
+
+def rel_type_selection(repo, tier):
+    from pyvc.contracts import Registry
+    from pyvc.exctypes import Universe
+    from contracts import c14_reltypes as RT
+    obls, fns = [], []
+    try:
+        reg = Registry()
+        for c in contracts(reg):
+            reg.add(c)
+        uni = Universe(repo)
+    except Exception as e:  # noqa
+        return {"obligations": [], "functions": [], "undecided": [{"obligation": "C14/rel-type", "why": f"{type(e).__name__}: {e}"}]}
+    for site in TYPE_SITES:
+        rel, fname = site["rel"], site["fn"]
+        short = rel.split("/")[-1]
+        ids = [f"C14/{short}::{fname}/rel-type#{lab}-relationships-are-picked-by-kind" for (_p, _k, _x, lab) in site["tests"]]
+        try:
+            mod = loader.module(rel, repo)
+            rname = real_name(rel, fname, repo)
+            fn = mod.functions.get(rname)
+            if fn is not None:
+                fn, _inl = inline_helpers(mod, rname)
+            tests = _type_tests(fn) if fn is not None else []
+        except Exception as e:  # noqa
+            fn, tests = None, []
+        if fn is None or len(tests) != len(site["tests"]):
+            for oid in ids:
+                g = ground_obligation(oid, False, f"{len(tests)} conditions on a relationship type found, {len(site['tests'])} expected: shape not recognised",
+                                      rel, kind="rel-type", definite=False)
+                g["function"] = f"{rel}::{fname}"
+                obls.append(g)
+            continue
+        for (oid, (part, kind, exact, _lab), (e, node, f)) in zip(ids, site["tests"], tests):
+            res = {u: _eval_type_test(mod, reg, uni, f, u) for u in RT.types_of(part)}
+            und = [u for u, v in res.items() if v is None]
+            want = {u for u in res if RT.kind_of(u) == kind}
+            src = ast.unparse(e)[:80]
+            if und:
+                g = ground_obligation(oid, False, f"line {LN(node)}: `{src}` not decided for {RT.kind_of(und[0])} ({len(und)} types)", rel, kind="rel-type", definite=False)
+            else:
+                vw = {res[u] for u in want}
+                if len(vw) != 1:
+                    bad = sorted(u for u in want if res[u] != res[RT.TRANSITIONAL + kind])
+                    g = ground_obligation(oid, False, f"line {LN(node)}: `{src}` treats the {kind} relationship types differently: {bad[:2]}", rel, kind="rel-type")
+                else:
+                    v = vw.pop()
+                    wrong = [u for u in res if u not in want and res[u] == v]
+                    if exact:
+                        g = ground_obligation(oid, not wrong, "" if not wrong else
+                                              f"line {LN(node)}: `{src}` does not tell a {kind} relationship from {', '.join(RT.kind_of(u) for u in wrong[:4])} "
+                                              f"({wrong[0]}): a part that lists such a relationship next to its {kind} relationship loses or gains pictures",
+                                              rel, kind="rel-type")
+                    else:
+                        ok = len(wrong) < len(res) - len(want)
+                        g = ground_obligation(oid, ok, "" if ok else f"line {LN(node)}: `{src}` does not depend on the kind", rel, kind="rel-type")
+            g["function"] = f"{rel}::{fname}"
+            g["loc"] = f"{rel}:{LN(node)}"
+            g["vcs"] = len(res)
+            g["backends"] = {"symex-concrete": len(res)}
+            obls.append(g)
+        fns.append(dict(mod.fn_info(rname), obligations=len(site["tests"])))
+    return confirm_natively({"obligations": obls, "functions": fns}, repo)
+
+
+# =====================================================================================
 # (c) numbering, (d) bytes / content type / pixel size dataflow, order of traversal  (AST, back end `dataflow`)
 # =====================================================================================
 PDF = EX + "pdf/pdf_extractor.py"
@@ -2183,7 +2308,7 @@ def seq_lemmas(repo, tier):
     return {"obligations": out, "functions": []}
 
 
-EXTRA = [_site_runner(i) for i in range(len(SITES))] + [image_sites, sniffers_agree, seq_lemmas, pdf_content_type]
+EXTRA = [_site_runner(i) for i in range(len(SITES))] + [image_sites, sniffers_agree, seq_lemmas, pdf_content_type, rel_type_selection]
 
 
 def lemmas():
